@@ -262,7 +262,8 @@ FO_Kinds == {"val", "opt", "tmpl", "pred", "fnapp"}
 FO_Root == {"opt", "tmpl"}
 FO_Paths == {pA, pSX, pL1, <<"D">>}
 FO_Consts == {I(0), I(1), Nv, Str("x"), Lv(<<I(1), Str("x")>>)}
-FO_Tmpls == {<<Chunk("t"), Ref(pB)>>, <<Ref(pA), Chunk("-"), Ref(pSX)>>, <<Chunk("p"), Par("p")>>, <<EscL, Ref(pB), EscR>>}
+FO_Tmpls == {<<Chunk("t"), Ref(pB)>>, <<Ref(pA), Chunk("-"), Ref(pSX)>>, <<Chunk("p"), Par("p")>>, <<EscL, Ref(pB), EscR>>,
+             <<EscL, Chunk("lit"), EscR>>}
 FO_Bodies == {"f"}
 FO_Preds == {"eq", "truthy"}
 FO_Leaves == <<[p |-> pA, vals |-> {I(0), I(1), Bv(FALSE), Nv, Sv(<<>>), Str("x"), Sv(<<Ref(pB)>>), Sv(<<Chunk("x"), Ref(pB)>>), Lv(<<>>), Lv(<<I(0), Sv(<<Ref(pB)>>)>>)}, extra |-> FALSE],
@@ -330,7 +331,8 @@ FK_Leaves == <<[p |-> pA, vals |-> {I(1), Str("x")}, extra |-> FALSE],
                [p |-> <<"Z">>, vals |-> {I(7)}, extra |-> TRUE]>>
 
 \* family "failing" (C12): user callables that raise on chosen inputs
-FR_Kinds == {"opt", "pred", "val", "fnapp", "ds", "apply", "switch", "bind", "case", "coalesce", "cached", "coll"}
+FR_Kinds == {"opt", "pred", "val", "tmpl", "fnapp", "ds", "apply", "switch", "bind", "case", "coalesce", "cached", "coll"}
+FR_Tmpls == {<<Chunk("t"), Ref(pB)>>}
 FR_Preds == {"raise", "eq"}
 FR_Consts == {I(1)}
 FR_Paths == {pA, pB}
@@ -343,7 +345,7 @@ FR_Cbs == {"", "cb"}
 FR_Effs == {<<>>, <<"e1">>}
 FR_Raises == {<<"f", <<I(1)>>>>, <<"f", <<>>>>, <<"g", <<I(2)>>>>, <<"g", <<Tv("f", <<I(2)>>)>>>>,
               <<"cb", <<Tv("f", <<I(3)>>)>>>>, <<"e1", <<Tv("f", <<I(0)>>)>>>>}
-FR_Leaves == <<[p |-> pA, vals |-> {I(0), I(1), I(2), I(3)}, extra |-> FALSE],
+FR_Leaves == <<[p |-> pA, vals |-> {I(0), I(1), I(2), I(3), Sv(<<Ref(pB)>>)}, extra |-> FALSE],
                [p |-> pB, vals |-> {I(1), I(2)}, extra |-> FALSE],
                [p |-> <<"Z">>, vals |-> {I(7)}, extra |-> TRUE]>>
 
